@@ -1,5 +1,5 @@
 PLAN = dict(
-    id="C19",
+    id="C19", api_files=['tracing-core/src/metadata.rs'],
     level="proof",
     explanation=(
         "Every comparison operator between Level/LevelFilter values, the conversions, the MAX_LEVEL set/read round trip and "
